@@ -179,6 +179,7 @@ type vingTop struct {
 type vingH struct {
 	blobs    []*vingBlob
 	byTok    map[string]*vingBlob
+	nIngest  int
 	tokOf    map[digest.Digest]string
 	tagTok   map[string]string
 	tops     []vingTop
@@ -377,8 +378,20 @@ func vingDump() (state, frames string) {
 	return "gone", ""
 }
 
+// vingLookupFirst: the directory store is asked for the repository before its layout is on disk (the layout is moved aside,
+// looked up, moved back): the repository object it caches then says "does not exist" until the index is loaded - the
+// conversion that follows must read the layout all the same
+var vingLookupFirst bool
+
 func vingOpenBody(storeKind, root string) vingObs {
 	o := vingObs{blobs: map[digest.Digest][]byte{}}
+	hold := ""
+	if vingLookupFirst && storeKind == "dir" {
+		hold = root + ".hold"
+		if os.Rename(filepath.Join(root, "r"), hold) != nil {
+			hold = ""
+		}
+	}
 	conf := config.Config{Storage: config.ConfigStorage{RootDir: root, GC: config.ConfigGC{Frequency: -1, GracePeriod: -1}}}
 	if storeKind == "mem" {
 		conf.Storage.StoreType = config.StoreMem
@@ -391,6 +404,16 @@ func vingOpenBody(storeKind, root string) vingObs {
 		s = NewMem(conf)
 	} else {
 		s = NewDir(conf)
+	}
+	if hold != "" {
+		if r0, err := s.RepoGet(context.Background(), "r"); err == nil {
+			r0.Done()
+		}
+		_ = os.Remove(filepath.Join(root, "r")) // an empty directory the lookup may have made
+		if err := os.Rename(hold, filepath.Join(root, "r")); err != nil {
+			o.err = "harness: " + err.Error()
+			return o
+		}
 	}
 	repo, err := s.RepoGet(context.Background(), "r")
 	if err != nil {
@@ -914,9 +937,13 @@ func (h *vingH) doIngest(storeKind string) string {
 	if err != nil {
 		return "harness-error " + err.Error()
 	}
+	h.nIngest++
+	vingLookupFirst = h.nIngest%3 == 0
 	o := h.open(storeKind, root)
+	vingLookupFirst = false
 	h.monitors(storeKind, o)
 	h.cleanup(root, o)
+	_ = os.RemoveAll(root + ".hold")
 	return h.line(o)
 }
 
